@@ -207,6 +207,9 @@ def locate_relative_path(name, env=None, check_executable=False, use_pathext=Fal
     If the current directory has "binfile" it can be called only by providing a path such as "./binfile" explicitly.
     """
     p = Path(name)
+    if name.endswith(("/", os.sep)):
+        # ``./file/`` names a directory entry *below* file: not a command
+        return None
     if is_explicit_path(name):
         possible_names = get_possible_names(p.name, env) if use_pathext else [p.name]
         for possible_name in possible_names:
